@@ -577,3 +577,9 @@ TECHNIQUE = 'Lean 4 proof by induction over paths + model/code correspondence (d
 from harness import globtree as _gt                     # noqa: E402
 from harness.mixins import add_family as _add_family    # noqa: E402
 _add_family(globals(), _gt, 'globtree', _gt.oracle, share=0.01)
+
+
+# Store.connect on one variable of a port: the recorded relative path leads from the port's store to the target
+from harness import connectpath as _cp                  # noqa: E402
+from harness.mixins import add_family as _add_family    # noqa: E402,F811
+_add_family(globals(), _cp, 'connectpath', _cp.oracle, share=0.02)
